@@ -39,13 +39,19 @@ func (s *sliceIter) Current() *kit.Person {
 }
 
 func newObjectStore(d *kit.Dataset, order []int) *objectz.ObjectStore[*kit.Person] {
-	store := objectz.NewObjectStore[*kit.Person](func() objectz.ObjectIterator[*kit.Person] {
+	return newObjectStoreOf[*kit.Person](d, func() objectz.ObjectIterator[*kit.Person] {
 		it := &sliceIter{}
 		for _, i := range order {
 			it.rows = append(it.rows, &d.People[i])
 		}
 		return it
-	})
+	}, func(p *kit.Person) *kit.Person { return p })
+}
+
+// newObjectStoreOf builds the object store over objects of type T (pointers, or the structs themselves), each of which
+// stands for one person of the dataset.
+func newObjectStoreOf[T any](d *kit.Dataset, iterF func() objectz.ObjectIterator[T], person func(T) *kit.Person) *objectz.ObjectStore[T] {
+	store := objectz.NewObjectStore[T](iterF)
 	// string accessors hand out a pointer into the live object (one string per object and field, kept for the life
 	// of the store), as an application's accessor returning &entity.Name does
 	live := map[string]*string{} // filled here, only read afterwards (queries may run concurrently)
@@ -74,28 +80,31 @@ func newObjectStore(d *kit.Dataset, order []int) *objectz.ObjectStore[*kit.Perso
 			return nil
 		}
 	}
-	store.AddStringSymbol("id", func(p *kit.Person) *string { s := p.ID; return &s })
+	store.AddStringSymbol("id", func(o T) *string { s := person(o).ID; return &s })
 	for _, f := range []string{"sa", "sb", "boss", "home"} {
-		store.AddStringSymbol(f, str(f))
+		get := str(f)
+		store.AddStringSymbol(f, func(o T) *string { return get(person(o)) })
 	}
-	store.AddInt64Symbol("ia", i64("ia"))
-	store.AddInt64Symbol("ib", i64("ib"))
-	store.AddFloat64Symbol("fa", func(p *kit.Person) *float64 {
-		if v := p.F["fa"]; v.K == "f" {
+	for _, f := range []string{"ia", "ib"} {
+		get := i64(f)
+		store.AddInt64Symbol(f, func(o T) *int64 { return get(person(o)) })
+	}
+	store.AddFloat64Symbol("fa", func(o T) *float64 {
+		if v := person(o).F["fa"]; v.K == "f" {
 			f := v.F
 			return &f
 		}
 		return nil
 	})
-	store.AddBoolSymbol("ba", func(p *kit.Person) *bool {
-		if v := p.F["ba"]; v.K == "b" {
+	store.AddBoolSymbol("ba", func(o T) *bool {
+		if v := person(o).F["ba"]; v.K == "b" {
 			b := v.B
 			return &b
 		}
 		return nil
 	})
-	store.AddDatetimeSymbol("ta", func(p *kit.Person) *time.Time {
-		if v := p.F["ta"]; v.K == "t" {
+	store.AddDatetimeSymbol("ta", func(o T) *time.Time {
+		if v := person(o).F["ta"]; v.K == "t" {
 			t := v.Time()
 			return &t
 		}
@@ -177,6 +186,14 @@ func runC19(c c19Case) kit.Result {
 		order = append(order, i)
 	}
 	ostore := newObjectStore(&d, order)
+	// a second object store holds the people as struct values (not pointers) in a map and iterates it with the
+	// library's own IterateMap
+	byID := map[string]kit.Person{}
+	for _, p := range d.People {
+		byID[p.ID] = p
+	}
+	vstore := newObjectStoreOf[kit.Person](&d, func() objectz.ObjectIterator[kit.Person] { return objectz.IterateMap(byID) },
+		func(p kit.Person) *kit.Person { return &p })
 	type answer struct {
 		ids   string
 		count int64
@@ -203,6 +220,23 @@ func runC19(c c19Case) kit.Result {
 			}
 			if fmt.Sprint(bIds) != fmt.Sprint(oIds) || bCount != oCount {
 				return fmt.Errorf("query: %s\n  bolt store   -> %v count %d\n  object store -> %v count %d", text, bIds, bCount, oIds, oCount)
+			}
+			var vIds []string
+			var vCount int64
+			var vErr error
+			if perr := func() (p interface{}) {
+				defer func() { p = recover() }()
+				var vobjs []kit.Person
+				vobjs, vCount, vErr = vstore.QueryEntities(text)
+				for _, o := range vobjs {
+					vIds = append(vIds, o.ID)
+				}
+				return nil
+			}(); perr != nil {
+				return fmt.Errorf("query: %s\n  the object store of struct values iterated with IterateMap panicked: %v", text, perr)
+			}
+			if vErr != nil || fmt.Sprint(bIds) != fmt.Sprint(vIds) || bCount != vCount {
+				return fmt.Errorf("query: %s\n  bolt store   -> %v count %d\n  object store of struct values (IterateMap) -> %v count %d error %v", text, bIds, bCount, vIds, vCount, vErr)
 			}
 			nullish := false
 			if q.Pred != nil {
